@@ -14,7 +14,7 @@ type QRef struct {
 }
 
 type DType struct {
-	K string `json:"k"`           // varchar bytes int8 int16 int32 int64 float32 float64 timestamp currency bool blob qname
+	K string  `json:"k"`           // varchar bytes int8 int16 int32 int64 float32 float64 timestamp currency bool blob qname
 	N *uint64 `json:"n,omitempty"` // length of varchar / bytes
 }
 
